@@ -512,15 +512,20 @@ Lemma vroot_refuted_joined :
                 spec_traverser ([], wit_tree) wit_escape = Ok s /\
                 descend ([], wit_tree) [ta] = Some v /\
                 t_virtual_root_path d = [ta] /\ t_virtual_root s = fst v /\
-                t_virtual_root d <> fst v /\ t_context d = [1; 0] /\ t_context s = [0] /\ d <> s.
+                t_virtual_root d <> fst v /\ t_context d = [1; 0] /\ t_context s = [0; 0] /\ d <> s.
 Proof.
   eexists. eexists. eexists. split; [vm_compute; reflexivity|]. split; [vm_compute; reflexivity|].
   split; [vm_compute; reflexivity|]. repeat split; try reflexivity; discriminate.
 Qed.
 
 Lemma escape_repaired :
-  traverser_call_mode VSeparate ([], wit_tree) wit_escape = spec_traverser ([], wit_tree) wit_escape.
-Proof. vm_compute. reflexivity. Qed.
+  exists d s, traverser_call_mode VSeparate ([], wit_tree) wit_escape = Ok d /\
+              spec_traverser ([], wit_tree) wit_escape = Ok s /\
+              t_context d = t_context s /\ t_virtual_root d = t_virtual_root s /\ t_context d = [0; 0].
+Proof.
+  eexists. eexists. split; [vm_compute; reflexivity|]. split; [vm_compute; reflexivity|].
+  repeat split; reflexivity.
+Qed.
 
 (* ---- normalisation *)
 (* the answer depends on the request path only through its normal form *)
@@ -530,7 +535,7 @@ Lemma traverser_path_normal_form root q1 q2 p1 p2 sub :
   traverser_call root q1 = traverser_call root q2.
 Proof.
   intros H1 H2 Hv Hs. rewrite !traverser_call_outcome. unfold traverser_gen.
-  rewrite H1, H2, Hv, Hs. reflexivity.
+  rewrite H1, H2, Hv. cbn [rbind]. rewrite Hs. reflexivity.
 Qed.
 
 Lemma decode_ascii_cons a t :
@@ -559,9 +564,92 @@ Proof.
   unfold slash, dot.
   rewrite (decode_ascii_cons 47) by lia. rewrite (decode_ascii_cons 46) by lia.
   rewrite (decode_ascii_cons 46) by lia. rewrite !(decode_ascii_cons 47) by lia.
-  destruct (decode_path_info p) as [d| |]; simpl; try reflexivity.
+  destruct (decode_path_info p) as [d| |]; cbn [rbind as_url_decode_error].
   - change (47 :: 46 :: 46 :: 47 :: d)%N with (slash :: dot :: dot :: slash :: d).
     change (47 :: d)%N with (slash :: d).
     rewrite spi_never_above_root. reflexivity.
-  - destruct e; reflexivity.
+  - reflexivity.
+  - reflexivity.
 Qed.
+
+(* ---- the statement of the property, for the code *)
+Definition vroot_tuple_of (q : request) : result (list text) :=
+  match q_vroot q with
+  | Some raw => rlet d := decode_path_info raw in Ok (split_path_info d)
+  | None => Ok []
+  end.
+
+Theorem traverser_resolves root q d :
+  traverser_call root q = Ok d ->
+  exists path sub vt ctx consumed rest,
+    path_and_subpath q = Ok (path, sub) /\ vroot_tuple_of q = Ok vt /\
+    walk_outcome root (vt ++ split_path_info path) ctx consumed rest /\
+    t_context d = fst ctx /\
+    t_view_name d = view_name_of rest /\
+    t_subpath d = subpath_of sub rest /\
+    t_traversed d = consumed ++ firstn (length vt) rest /\
+    t_virtual_root_path d = vt /\ t_root d = fst root /\
+    ((length vt <= length consumed /\
+        exists v c', descend root vt = Some v /\ t_virtual_root d = fst v /\ consumed = vt ++ c' /\
+                     descend v c' = Some ctx /\ exists suffix, t_context d = fst v ++ suffix)
+     \/ (length consumed < length vt /\ t_virtual_root d = fst root /\
+         exists more, more <> [] /\ vt = consumed ++ more)).
+Proof.
+  rewrite traverser_call_outcome. unfold traverser_gen. fold (vroot_tuple_of q).
+  destruct (path_and_subpath q) as [[path sub]| |]; cbn [rbind]; try discriminate.
+  destruct (vroot_tuple_of q) as [vt| |]; cbn [rbind]; try discriminate.
+  intros H. injection H as <-.
+  destruct (spec_outcome_walk root vt (split_path_info path) sub) as (ctx & c & r & Ho & Hs).
+  cbv zeta in Hs. destruct Hs as (S1 & S2 & S3 & S4 & S5 & S6).
+  exists path, sub, vt, ctx, c, r.
+  pose proof (model_traversed_exact root vt (split_path_info path) sub ctx c r Ho) as Ht.
+  pose proof (spec_outcome_vroot root vt (split_path_info path) sub ctx c r Ho) as Hv. cbv zeta in Hv.
+  repeat (split; [first [reflexivity | assumption]|]).
+  exact Hv.
+Qed.
+
+(* "the context is the deepest resource reached": the consumed segments are the
+   longest prefix that can be walked by item lookup without meeting '@@' *)
+Theorem consumed_is_longest ob segs ctx c r :
+  walk_outcome ob segs ctx c r ->
+  spec_consumed ob segs = c /\
+  forall k, k <= length segs -> (walkable ob (firstn k segs) = true <-> k <= length c).
+Proof.
+  intros Ho. apply walk_unique in Ho. split; [eapply walk_longest; eassumption|].
+  eapply walkable_firstn; eassumption.
+Qed.
+
+(* ---- non-vacuity *)
+(* PATH_INFO=/a/b/zz/t, no virtual root: two segments consumed, early stop *)
+Example resolves_nontrivial :
+  traverser_call ([], wit_tree) (mkReq (Some [47; 97; 47; 98; 47; 122; 122; 47; 116]%N) None None)
+  = Ok (mkT [0; 0] [122; 122]%N [[116%N]] [ta; tb] [] [] []).
+Proof. vm_compute. reflexivity. Qed.
+
+(* vroot /a, PATH_INFO=/b: virtual root reached, path exhausted: hypotheses of the partial theorem hold *)
+Example partial_hypothesis_satisfiable :
+  spec_consumed ([], wit_tree) ([ta] ++ [tb]) = [ta] ++ [tb] /\
+  traverser_call ([], wit_tree) (mkReq (Some [47; 98]%N) None (Some [47; 97]%N))
+  = Ok (mkT [0; 0] [] [] [ta; tb] [0] [ta] []).
+Proof. split; vm_compute; reflexivity. Qed.
+
+Example walk_outcome_inhabited :
+  walk_outcome ([], wit_tree) [ta; tx; ty] ([0], Node (Some [(tb, Node None)])) [ta] [tx; ty].
+Proof. apply walk_sound. vm_compute. reflexivity. Qed.
+
+(* a view selector stops the walk even when a child of that name exists *)
+Example selector_stops :
+  traverser_call ([], Node (Some [([64; 64; 97]%N, Node None); (ta, Node None)]))
+                 (mkReq (Some [47; 64; 64; 97; 47; 98]%N) None None)
+  = Ok (mkT [] ta [tb] [] [] [] []).
+Proof. vm_compute. reflexivity. Qed.
+
+(* traversal_path_info / traversal_path only ever return normal segments *)
+Lemma tpi_normal p l : traversal_path_info p = Ok l -> Forall normal_seg l.
+Proof.
+  unfold traversal_path_info. destruct (as_url_decode_error (decode_path_info p)); simpl; try discriminate.
+  intros H. injection H as <-. apply spi_normal.
+Qed.
+
+Lemma tp_normal p l : traversal_path p = Ok l -> Forall normal_seg l.
+Proof. unfold traversal_path. destruct (is_ascii p); [apply tpi_normal|discriminate]. Qed.
